@@ -71,7 +71,8 @@ async def one_name(net, hyg, plan):
                              [aioftp.Permission(x, readable=False, writable=False) for x in locked])]
     w = W.World(net, users=users, **({"encoding": enc} if enc else {}))
     await w.start()
-    c = aioftp.Client(path_io_factory=aioftp.MemoryPathIO, **({"encoding": enc} if enc else {}))
+    c = aioftp.Client(path_io_factory=aioftp.MemoryPathIO, **({"encoding": enc} if enc else {}),
+                      **({"passive_commands": (plan["passive"],)} if plan.get("passive") else {}))
     try:
         await c.connect("127.0.0.1", 2121)
         await c.login()
@@ -346,6 +347,12 @@ def gen_cases(tier, seed):
                 plan["encoding"] = "latin-1"
             except UnicodeEncodeError:
                 pass
+        if len(plans) % 3 == 0:
+            plan["passive"] = "pasv"        # (the client's default asks EPSV first)
         plans.append(plan)
+    # names with latin-1 letters on a latin-1 server and client, each passive command
+    for j, nm in enumerate(["caf\u00e9", "\u00fcber \u00e4", "na\u00efve; \u00e9=1", "\u00ff\u00a1 x"]):
+        for passive in ("pasv", "epsv"):
+            plans.append(dict(plans[0], seed=seed * 13 + j, name=nm, other="plain" + str(j), encoding="latin-1", passive=passive, perm_siblings=None))
     per = 8
     return [{"plans": plans[i:i + per]} for i in range(0, len(plans), per)]
